@@ -87,6 +87,7 @@ def run_impl(trial):
         def sm(msg, flags=0, j=j): log.append(decode_pub(j, msg))
         pub.send_multipart = sm
     calls = []
+    snaps = []
     for op in trial['ops']:
         del log[:]
         if op['k'] == 'd':
@@ -118,12 +119,53 @@ def run_impl(trial):
         except Exception as e:
             log.append({'k': 'exc', 'e': type(e).__name__ + ':' + str(e)[:80]})
         calls.append(list(log))
+        snaps.append({'clients': {fid: bool(c.requested) for fid, c in S.clients.items()} if S.clients is not None else {},
+                      'queued': [json.loads(bytes(m[0]).decode()) for pull in S.pulls for m in pull.queue]})
         if log and log[-1]['k'] == 'exc': break
+    trial['_snaps'] = snaps
     return calls
 
 
 def model_request(trial):
     return {'op': 'send.run', 'nout': trial['nout'], 'balance': trial['balance'], 'required': trial['required'], 'ops': trial['ops']}
+
+
+def stall_oracle(trial, calls):
+    """C04 at sender level: after the last request of a synchronised client arrives, the number of further publishes made while
+    that client is still tracked is at most [requested] + #its requests still queued at that moment (the potential of C04_potential)."""
+    v = []
+    if trial['balance'] or any(op['k'] == 'c' and op['push'] for op in trial['ops']): return v
+    snaps = trial.get('_snaps') or []
+    ops = trial['ops']
+    # index of call-like ops (every non-'d' op produced one entry of calls/snaps)
+    callidx, k = {}, 0
+    for i, op in enumerate(ops):
+        if op['k'] != 'd':
+            callidx[i] = k; k += 1
+    for c in trial['clients']:
+        if c['eph']: continue
+        fids = {c['cid'] + c['uid'], c['cid'] + c['uid'] + "'"}
+        for fid in fids:
+            last = max((i for i, op in enumerate(ops) if op['k'] == 'd' and op['r']['cid'] + op['r']['uid'] == fid), default=None)
+            if last is None: continue
+            # potential right after the last delivery: flag from the previous snapshot + queued requests of fid (incl. the one just delivered)
+            prev_calls = [callidx[i] for i in callidx if i < last]
+            flag = 0
+            if prev_calls and prev_calls[-1] < len(snaps):
+                flag = 1 if snaps[prev_calls[-1]]['clients'].get(fid) else 0
+            pend = sum(1 for i in range(last + 1) if ops[i]['k'] == 'd' and ops[i]['r']['cid'] + ops[i]['r']['uid'] == fid)
+            # requests of fid already consumed before `last`: those delivered before the previous call (the drain empties the queues each call)
+            consumed = sum(1 for i in range(last + 1) if ops[i]['k'] == 'd' and ops[i]['r']['cid'] + ops[i]['r']['uid'] == fid and prev_calls and i < max(j for j in callidx if callidx[j] == prev_calls[-1]))
+            phi = flag + (pend - consumed)
+            pubs = 0
+            for i in callidx:
+                if i > last and callidx[i] < len(calls):
+                    outs = calls[callidx[i]]
+                    tracked = fid in snaps[callidx[i]]['clients']
+                    if tracked and any(o['k'] == 'pub' and o['mid'] >= 0 and o['f'] == '//' for o in outs): pubs += 1
+            if pubs > phi:
+                v.append(('publishes-exceed-potential', f'client {fid}: {pubs} publishes after its last request, potential {phi}'))
+    return v
 
 
 def canon_model_calls(resp, n):
